@@ -109,7 +109,7 @@ def plan(tier, seed):
     for r in range(ncs):
         specs.append({"kind": "tomo", "sclass": ["int", "sub"][r % 2], "shape": SHAPES[(r // 2) % len(SHAPES)]})
         specs.append({"kind": "dptycho", "sclass": ["int", "sub", "int_far"][r % 3], "shape": SHAPES[(r // 2) % len(SHAPES)], "up": [1, 2, 4, 8, 3, 16][(r // 3) % 6], "dtype": ["float32", "float64"][(r // 6) % 2]})
-    reps = 2 if tier == "quick" else 140
+    reps = 2 if tier == "quick" else 80
     k = 0
     for rep in range(reps):
         for be, up, sc, shp in itertools.product(BACKENDS, UPS, SCLASSES, SHAPES):
